@@ -87,6 +87,9 @@ def rand_noise(r, next_id):
 
 def rand_construct(r):
     """TRS.from_twprgesec with components that may lack a direction (filled from the defaults in force at the call)"""
+    if r.chance(2, 3):
+        # a small pool, so that the same components recur under different defaults within one history
+        return ('from_twprgesec',) + r.choice([(154, 97, 14), ('27', '4', 9), (1, '2w', '01')]) + (r.choice([None, None, 's']), r.choice([None, None, 'e']))
     twp = r.choice([154, 27, '154', '154n', '27s', 1, None])
     rge = r.choice([97, 4, '97', '97w', '4e', 2, None])
     sec = r.choice([14, 9, '14', '01', None, 100])
